@@ -540,7 +540,7 @@ func (self *PathNode) assgin(depth int, opts *Options) error {
 			continue
 		}
 		if err := n.assgin(depth-1, opts); err != nil {
-			break
+			return err
 		}
 	}
 	return nil
